@@ -28,6 +28,7 @@ def run(ctx):
     st_reclaimsizes.run_stage(ctx, PREFIXES, thorough=not ctx.quick)
     n = 320 if ctx.quick else 5000
     st_cluster.run_stage(ctx, PREFIXES, [("closed", n), ("flat", 1200 if ctx.quick else 20000), ("chains", 600 if ctx.quick else 10000)], nontrivial_fn=nontrivial)
+    st_cluster.run_directed(ctx, PREFIXES, "C15")
 
 
 def replay(ctx, obj):
